@@ -90,7 +90,7 @@ class Decoder:
 
     def locals_of(self, f, env0):
         env = dict(env0)
-        for st in f.node.body:
+        for st in (f.node.body if hasattr(f, "node") else f.body):
             if isinstance(st, ast.Assign) and len(st.targets) == 1 and isinstance(st.targets[0], ast.Name):
                 try:
                     env[st.targets[0].id] = self.value(st.value, env)
@@ -118,12 +118,12 @@ class Decoder:
                 if p.t.get(("@ordA",)) == 1:
                     return ("col0", p - Poly.sym("@ordA"))
             raise NotDecoded("chr(...) form")
+        if isinstance(e, ast.Call) and dotted(e.func) in ("self._column_reference",):
+            return ("col0", self.P(e.args[0], env) - Poly.const(1))
         if isinstance(e, ast.Call) and isinstance(e.func, ast.Attribute) and dotted(e.func.value) == "self":
             f = self.prog.lookup(self.cls, e.func.attr)
             if f is not None:
                 return self.inline(f, e)
-        if isinstance(e, ast.Call) and dotted(e.func) in ("self._column_reference",):
-            return ("col0", self.P(e.args[0], env) - Poly.const(1))
         return self.P(e, env)
 
     def inline(self, f, call):
@@ -139,41 +139,35 @@ class Decoder:
 
     def ref(self, f):
         """[(col0_lo, col0_hi, row_lo, row_hi)] (rows 1-based) for a reference builder."""
-        env = self.locals_of(f, {})
-        rets = [n.value for n in walk_own(f.node) if isinstance(n, ast.Return)]
+        from sa.inline import expand
+        from sa.strtpl import Hole, template_of
+
+        # canonical form: helpers that build the reference for several columns are inlined (their column argument becomes a literal)
+        fx = expand(self.prog, f, skip_names=("_column_reference",))
+        env = self.locals_of(fx, {})
+        rets = [n.value for n in walk_own(fx) if isinstance(n, ast.Return)]
         if len(rets) != 1:
             raise NotDecoded("several returns")
-        r = rets[0]
-        tmpl, args = None, []
-        if isinstance(r, ast.BinOp) and isinstance(r.op, ast.Mod) and isinstance(r.left, ast.Constant) and isinstance(r.left.value, str):
-            tmpl = r.left.value
-            elts = r.right.elts if isinstance(r.right, ast.Tuple) else [r.right]
-            i = 0
-
-            def sub(m):
-                nonlocal i
-                i += 1
-                return "%s%d%s" % (MARK, i - 1, MARK)
-            tmpl = re.sub(r"%[sd]", sub, tmpl)
-            args = list(elts)
-        elif isinstance(r, ast.Call) and isinstance(r.func, ast.Attribute) and r.func.attr == "format" and isinstance(r.func.value, ast.Constant):
-            tmpl = r.func.value.value
-            kw = {}
-            for k in r.keywords:
-                if k.arg is None and isinstance(k.value, ast.Dict):
-                    for kk, vv in zip(k.value.keys, k.value.values):
-                        kw[kk.value] = vv
-                elif k.arg:
-                    kw[k.arg] = k.value
-            names = []
-
-            def sub2(m):
-                names.append(m.group(1))
-                return "%s%d%s" % (MARK, len(names) - 1, MARK)
-            tmpl = re.sub(r"\{(\w+)\}", sub2, tmpl)
-            args = [kw[n] for n in names]
-        else:
+        single = {}
+        for n in walk_own(fx):
+            if isinstance(n, ast.Assign) and len(n.targets) == 1 and isinstance(n.targets[0], ast.Name):
+                single.setdefault(n.targets[0].id, []).append(n.value)
+        parts = template_of(rets[0], lambda nm: single[nm.id][0] if len(single.get(nm.id, [])) == 1 and isinstance(
+            single[nm.id][0], (ast.Constant, ast.JoinedStr, ast.BinOp)) and not isinstance(env.get(nm.id), (Poly, tuple)) else None,
+            lambda e: self.prog.const(e, f.module, None, self.cls) if isinstance(e, (ast.Name, ast.Attribute)) and not (
+                isinstance(e, ast.Name) and e.id in env) else None)
+        if parts is None:
             raise NotDecoded("return is not a formatted string")
+        tmpl, args = "", []
+        for p_ in parts:
+            if isinstance(p_, Hole):
+                if isinstance(p_.expr, ast.Constant) and isinstance(p_.expr.value, (str, int)):
+                    tmpl += str(p_.expr.value)
+                else:
+                    tmpl += "%s%d%s" % (MARK, len(args), MARK)
+                    args.append(p_.expr)
+            else:
+                tmpl += p_
         m = re.fullmatch(r"Sheet1!\$([^$:]+)\$([^$:]+)(?::\$([^$:]+)\$([^$:]+))?", tmpl)
         if not m:
             raise NotDecoded("template %r is not Sheet1!$C$R[:$C$R]" % tmpl)
@@ -220,15 +214,20 @@ class Decoder:
                     e2 = dict(env)
                     lp = None
                     it = st.iter
+                    itsym = None
                     if isinstance(it, ast.Call) and dotted(it.func) == "enumerate" and isinstance(st.target, ast.Tuple):
                         iv = st.target.elts[0].id
                         src = ast.unparse(it.args[0])
+                        start = it.args[1] if len(it.args) > 1 else next((k.value for k in it.keywords if k.arg == "start"), None)
+                        s0 = self.P(start, env) if start is not None else Poly.const(0)
                         if src == "self._chart_data":
-                            e2[iv] = Poly.sym("index")
+                            e2[iv] = Poly.sym("index") + s0
                             lp = ("series",)
+                            itsym = "index"
                         elif src.endswith(".levels"):
-                            e2[iv] = Poly.sym("lvl")
+                            e2[iv] = Poly.sym("lvl") + s0
                             lp = ("levels", st.target.elts[1].id)
+                            itsym = "lvl"
                         else:
                             raise NotDecoded("loop over %s" % src)
                     elif isinstance(st.target, ast.Tuple) and isinstance(it, ast.Name) and isinstance(env.get(it.id), tuple) and env[it.id][0] == "level":
@@ -237,11 +236,30 @@ class Decoder:
                         lp = ("level-items",)
                     elif ast.unparse(it) == "self._chart_data" and isinstance(st.target, ast.Name):
                         lp = ("series",)
+                        itsym = "index"
+                    elif ast.unparse(it).endswith(".levels") and isinstance(st.target, ast.Name):
+                        lp = ("levels", st.target.id)
+                        itsym = "lvl"
                     else:
                         raise NotDecoded("loop `for %s in %s`" % (ast.unparse(st.target), ast.unparse(it)))
+                    # induction variables: `v = A` before the loop and `v += c` as the first / last statement of the body
+                    body_ = list(st.body)
+                    for pos in (0, -1):
+                        if body_ and isinstance(body_[pos], ast.AugAssign) and isinstance(body_[pos].target, ast.Name) \
+                                and isinstance(env.get(body_[pos].target.id), Poly) and isinstance(body_[pos].op, (ast.Add, ast.Sub)) and itsym:
+                            stp = self.P(body_[pos].value, env)
+                            if not stp.is_const():
+                                raise NotDecoded("induction step")
+                            stp = stp if isinstance(body_[pos].op, ast.Add) else -stp
+                            v_ = body_[pos].target.id
+                            e2[v_] = env[v_] + stp * Poly.sym(itsym) + (stp if pos == 0 and len(body_) > 1 else Poly())
+                            body_ = body_[1:] if pos == 0 else body_[:-1]
+                            break
+                    if any(isinstance(x, ast.AugAssign) for b_ in body_ for x in ast.walk(b_)):
+                        raise NotDecoded("augmented assignment inside a loop body")
                     if lp[0] == "levels":
                         e2[lp[1]] = ("level", None)
-                    block(st.body, e2, loops + (lp[0],))
+                    block(body_, e2, loops + (lp[0],))
                 elif isinstance(st, ast.Expr) and isinstance(st.value, ast.Call):
                     c = st.value
                     d = dotted(c.func) or ""
